@@ -968,11 +968,12 @@ class TempoClock(Clock, metaclass=MetaTempoClock):
                 f"invalid tempo {value}. The method "
                 "'etempo()' can be used instead.")
         # TempoClock::SetTempoAtBeat
-        beats = self.beats
-        self._base_seconds = self.beats2secs(beats)
-        self._base_beats = beats
-        self._tempo = value
-        self._beat_dur = 1.0 / self._tempo
+        with _libsc3.main._main_lock:  # The clock's thread reads the map.
+            beats = self.beats
+            self._base_seconds = self.beats2secs(beats)
+            self._base_beats = beats
+            self._tempo = value
+            self._beat_dur = 1.0 / self._tempo
         # en tempo_
         mdl.NotificationCenter.notify(self, 'tempo')
         if self.mode == _libsc3.main.NRT_MODE:
@@ -997,11 +998,12 @@ class TempoClock(Clock, metaclass=MetaTempoClock):
         if value == 0.0:
             raise ValueError("tempo can't be zero")
         # TempoClock::SetTempoAtTime
-        seconds = _libsc3.main.elapsed_time()
-        self._base_beats = self.secs2beats(seconds)
-        self._base_seconds = seconds
-        self._tempo = value
-        self._beat_dur = 1.0 / self._tempo
+        with _libsc3.main._main_lock:  # The clock's thread reads the map.
+            seconds = _libsc3.main.elapsed_time()
+            self._base_beats = self.secs2beats(seconds)
+            self._base_seconds = seconds
+            self._tempo = value
+            self._beat_dur = 1.0 / self._tempo
         # etempo_
         mdl.NotificationCenter.notify(self, 'tempo')
         if self.mode == _libsc3.main.NRT_MODE:
@@ -1058,10 +1060,11 @@ class TempoClock(Clock, metaclass=MetaTempoClock):
     def beats(self, value):
         if not self.running():
             raise ClockNotRunning(self)
-        seconds = _libsc3.main.current_tt._seconds
-        self._base_seconds = seconds
-        self._base_beats = value
-        self._beat_dur = 1.0 / self._tempo
+        with _libsc3.main._main_lock:  # The clock's thread reads the map.
+            seconds = _libsc3.main.current_tt._seconds
+            self._base_seconds = seconds
+            self._base_beats = value
+            self._beat_dur = 1.0 / self._tempo
         if self.mode == _libsc3.main.NRT_MODE:
             _libsc3.main._clock_scheduler.retime(self)
         else:
